@@ -2672,6 +2672,12 @@ def c13(ctx):
          "package a\n\nfunc k() {\n\tg(a(1), b(2, 3), c())\n}\n"),
         ("@@\n@@\n foo(..., ...)\n ...\n-bar(...)\n+baz(...)\n", "@@\n@@\n\n\n foo(...,\n   ...)\n ...\n-bar(...)\n+baz(...)\n",
          "package a\n\nfunc m() {\n\tfoo(1, 2)\n\tmid()\n\tbar(3)\n}\n"),
+        ("@@\nvar f identifier\n@@\n-func f(name string, args ...string) {\n+func f(name string, args ...any) {\n ...\n }\n",
+         "@@\nvar f identifier\n@@\n-func f(name string, args ...\n-  string) {\n+func f(name string, args ...\n+  any) {\n ...\n }\n",
+         "package a\n\nfunc logf(name string, args ...string) {\n\tuse(name, args)\n}\n"),
+        ("@@\n@@\n-var h = func(xs ...int) int { return 0 }\n+var h = func(xs ...int64) int64 { return 0 }\n",
+         "@@\n@@\n-var h = func(xs ...\n-  int) int { return 0 }\n+var h = func(xs ...\n+  int64) int64 { return 0 }\n",
+         "package a\n\nvar h = func(xs ...int) int { return 0 }\n"),
     ]
     lp = []
     for k, (pa, pb, src) in enumerate(LAYOUT_PAIRS):
